@@ -387,3 +387,120 @@ Definition tags (cs : list case) : list (N * N) :=
     + (match w_svc c with SDns => if w_parses c then 0 else 8 | _ => 0 end))%N) cs.
 
 End RawCheck.
+
+(* ================================================================== *)
+Module SshCheck.
+
+Record case := mkS {
+  z_id : N;
+  z_user : bytes;
+  z_passwords : list bytes;       (* presented in this order on one connection *)
+  z_accept : bytes;               (* the password the backend accepts for the user *)
+  z_reqs : list smsg;             (* channel requests the client sends, in order *)
+  z_data : list bytes;            (* channel data the client writes *)
+  z_reply : list bytes;           (* channel data the backend writes, then it closes the channel *)
+  z_texty : bool;
+  o_ok : bool;                    (* observed: the client was authenticated *)
+  o_bauth : list (bytes * bytes); (* observed: (user, password) attempts at the backend *)
+  o_bconns : N;
+  o_breqs : list smsg; o_bdata : bytes; o_cdata : bytes;
+  o_replies : list bool;          (* what the client was told for its want-reply requests *)
+  o_evpw : list (bytes * bytes); o_evreqs : list bytes; o_evchan : N; o_evsess : N;
+  o_rec : bytes; o_attr : bool
+}.
+
+Definition eqb_cred (a b : bytes * bytes) : bool := eqb_bytes (fst a) (fst b) && eqb_bytes (snd a) (snd b).
+Definition eqb_smsg (a b : smsg) : bool :=
+  match a, b with
+  | MReq t w p, MReq t' w' p' => eqb_bytes t t' && Bool.eqb w w' && eqb_bytes p p'
+  | MData d, MData d' => eqb_bytes d d'
+  | _, _ => false
+  end.
+
+Fixpoint eqb_list {A} (f : A -> A -> bool) (a b : list A) : bool :=
+  match a, b with
+  | [], [] => true
+  | x :: a', y :: b' => f x y && eqb_list f a' b'
+  | _, _ => false
+  end.
+
+Definition attempts (c : case) : list cred := map (fun p => (z_user c, p)) (z_passwords c).
+Definition accepts (c : case) (x : cred) : bool := eqb_bytes (snd x) (z_accept c).
+
+(* the harness backend's policy for want-reply requests: env, pty-req, shell, exec succeed *)
+Definition OK_TYPES : list bytes :=
+  [[101;110;118]; [112;116;121;45;114;101;113]; [115;104;101;108;108]; [101;120;101;99]]%N.
+Definition policy (ty : bytes) : bool := existsb (eqb_bytes ty) OK_TYPES.
+
+Definition want_replies (l : list smsg) : list bool :=
+  flat_map (fun m => match m with MReq t true _ => [policy t] | _ => [] end) l.
+Definition req_types (l : list smsg) : list bytes :=
+  flat_map (fun m => match m with MReq t _ _ => [t] | _ => [] end) l.
+
+Definition client_msgs (c : case) : list smsg := z_reqs c ++ map MData (z_data c).
+
+Definition agrees (c : case) : bool :=
+  let '(tried, ok) := auth_run (accepts c) (attempts c) in
+  Bool.eqb ok (o_ok c) && eqb_list eqb_cred tried (o_bauth c) && (o_bconns c =? N.of_nat (length tried))%N &&
+  eqb_list eqb_cred tried (o_evpw c) && o_attr c &&
+  if ok then
+    let relayed := ssh_relay (client_msgs c) [] in
+    eqb_list eqb_smsg (reqs_of relayed) (o_breqs c) && eqb_bytes (data_of relayed) (o_bdata c) &&
+    is_prefix (o_cdata c) (concat (z_reply c)) &&            (* = relay_until_close for some schedule *)
+    eqb_list Bool.eqb (want_replies (z_reqs c)) (o_replies c) &&
+    eqb_list eqb_bytes (req_types (z_reqs c)) (o_evreqs c) && (o_evchan c =? 1)%N && (o_evsess c =? 1)%N &&
+    (if z_texty c && eqb_bytes (o_cdata c) (concat (z_reply c)) then eqb_bytes (o_rec c) (sanitize (concat (z_reply c))) else true)
+  else
+    match o_breqs c, o_bdata c, o_cdata c, o_evreqs c with
+    | [], [], [], [] => (o_evchan c =? 0)%N && (o_evsess c =? 0)%N
+    | _, _, _, _ => false
+    end.
+
+Definition mismatches (cs : list case) : list N := map z_id (filter (fun c => negb (agrees c)) cs).
+
+Definition SIG_CRED := 1%N.
+Definition SIG_REQS := 2%N.
+Definition SIG_UP := 3%N.
+Definition SIG_DOWN := 4%N.
+Definition SIG_EVENT := 5%N.
+Definition SIG_CONNS := 6%N.
+Definition SIG_STATUS := 7%N.
+Definition SIG_TRUNCATED := 8%N.      (* the client received only a proper prefix of the backend's channel data *)
+
+(* the property on the observation: the backend sees the presented credentials, attempt
+   by attempt, until it accepts one; then requests and data as sent, the backend's data
+   reaches the client; one event per attempt / request / channel / session *)
+Definition case_sigs (c : case) : list N :=
+  let att := attempts c in
+  let n := length (o_bauth c) in
+  let cred_ok :=
+    eqb_list eqb_cred (firstn n att) (o_bauth c) &&
+    (if o_ok c then match rev (o_bauth c) with x :: _ => accepts c x | [] => false end
+     else (n =? length att)%nat && negb (existsb (accepts c) att)) in
+  (if cred_ok then [] else [SIG_CRED])
+  ++ (if (o_bconns c =? N.of_nat n)%N then [] else [SIG_CONNS])
+  ++ (if eqb_list eqb_cred (o_bauth c) (o_evpw c) && o_attr c then [] else [SIG_EVENT])
+  ++ (if o_ok c then
+        (if eqb_list eqb_smsg (z_reqs c) (o_breqs c) then [] else [SIG_REQS])
+        ++ (if eqb_bytes (concat (z_data c)) (o_bdata c) then [] else [SIG_UP])
+        ++ (if eqb_bytes (o_cdata c) (concat (z_reply c)) then []
+            else if is_prefix (o_cdata c) (concat (z_reply c)) then [SIG_TRUNCATED] else [SIG_DOWN])
+        ++ (if eqb_list Bool.eqb (want_replies (z_reqs c)) (o_replies c) then [] else [SIG_STATUS])
+        ++ (if eqb_list eqb_bytes (req_types (o_breqs c)) (o_evreqs c) && (o_evchan c =? 1)%N && (o_evsess c =? 1)%N
+            then [] else [SIG_EVENT])
+      else []).
+
+Definition violations (cs : list case) : list (N * N) :=
+  nodup_pairs (flat_map (fun c => map (fun s => (z_id c, s)) (case_sigs c)) cs).
+
+(* 1 = rejected, 2 = first password accepted, 4 = accepted after rejected attempts;
+   +8 channel requests, +16 more than 16 KiB in one direction *)
+Definition tags (cs : list case) : list (N * N) :=
+  map (fun c =>
+    let '(tried, ok) := auth_run (accepts c) (attempts c) in
+    (z_id c,
+     (if ok then (match tried with [_] => 2 | _ => 4 end) else 1)
+     + (match z_reqs c with [] => 0 | _ => 8 end)
+     + (if (16384 <? N.of_nat (length (concat (z_data c))))%N || (16384 <? N.of_nat (length (concat (z_reply c))))%N then 16 else 0))%N) cs.
+
+End SshCheck.
